@@ -166,9 +166,21 @@ func checkGenericTree(toks []lexer.Token) {
 // followed by k arbitrary tokens (the place where directives and further declarations go).  Lexemes of
 // the arbitrary part are chosen so that references resolve: an IDENT is "start", a TOKEN is "TK", a
 // STRING at position i is "s<i>" (string literals define themselves), a PREDEF is a predefined name.
-func VerifDirectiveTokens(k int) ([]lexer.Token, int) {
+// Variants change the fixed part (see the cases below).
+func VerifDirectiveTokens(k int, variant int) ([]lexer.Token, int) {
 	fixedKinds := []string{"grammar", "IDENT", ";", "TOKEN", "=", "STRING", ";", "IDENT", "=", "STRING", "TOKEN", ";"}
 	fixedLex := []string{"grammar", "g", ";", "TK", "=", "k", ";", "start", "=", "s", "TK", ";"}
+	switch variant {
+	case 1: // the start rule is `start = TK | ;`, so that short rule handles name productions already declared
+		fixedKinds = []string{"grammar", "IDENT", ";", "TOKEN", "=", "STRING", ";", "IDENT", "=", "TOKEN", "|", ";"}
+		fixedLex = []string{"grammar", "g", ";", "TK", "=", "k", ";", "start", "=", "TK", "|", ";"}
+	case 2: // a directive that already lists a terminal is left open, so that the appended handles are not the first
+		fixedKinds = append(fixedKinds, "@right", "TOKEN")
+		fixedLex = append(fixedLex, "@right", "TK")
+	case 3: // the same with a rule handle listed first
+		fixedKinds = append(fixedKinds, "@none", "<", "IDENT", "=", "TOKEN", ">")
+		fixedLex = append(fixedLex, "@none", "<", "start", "=", "TK", ">")
+	}
 	toks := make([]lexer.Token, 0, len(fixedKinds)+k)
 	for i := range fixedKinds {
 		toks = append(toks, lexer.Token{Terminal: grammar.Terminal(fixedKinds[i]), Lexeme: fixedLex[i],
@@ -212,6 +224,9 @@ func VerifPoolTokens(k int, variant int) ([]lexer.Token, int) {
 	case 3: // a directive and a start rule come first
 		fixedKinds = append(fixedKinds, "@left", "STRING", ";", "IDENT", "=", "STRING", "IDENT", ";")
 		fixedLex = append(fixedLex, "@left", "s", ";", "start", "=", "s", "aa", ";")
+	case 4: // a complete well-formed specification comes first, so that a repeated definition can be the only defect
+		fixedKinds = append(fixedKinds, "TOKEN", "=", "STRING", ";", "TOKEN", "=", "REGEX", ";", "IDENT", "=", "TOKEN", "TOKEN", ";")
+		fixedLex = append(fixedLex, "TA", "=", "s", ";", "TB", "=", "x", ";", "start", "=", "TA", "TB", ";")
 	}
 	toks := make([]lexer.Token, 0, len(fixedKinds)+k)
 	for i := range fixedKinds {
